@@ -79,7 +79,9 @@ BAD = ["bad_undefined", "bad_dimension", "bad_base", "bad_prefixed"]
 
 OPS = ([("enable", c, None) for c in CTX] + [("enable", "cb", Fraction(11)), ("enable", "caa", None)] + [("disable", n) for n in (0, 1, 2, None)]
        + [("with", ("ca",), None), ("with", ("cr", "cb"), None), ("with", ("cm",), Fraction(2)), ("with", (), None), ("exit",), ("raise",)]
-       + [("fail", b) for b in BAD] + [("failwith", "bad_undefined")] + [("define",)])
+       + [("fail", b) for b in BAD] + [("failwith", "bad_undefined")] + [("define",)]
+       # per-call contexts (Quantity.to / ito with a context name): scoped to the call, also when the conversion fails (ca has no path to mass)
+       + [("call", "to", "xs"), ("call", "ito", "xs"), ("call", "to", "xg"), ("call", "ito", "xg")])
 
 
 def tasks(tier, seed):
@@ -92,7 +94,8 @@ def tasks(tier, seed):
 def new_registry():
     import pint
 
-    return pint.UnitRegistry(LINES, non_int_type=Fraction)
+    # on_redefinition='raise': activating a context switches the policy off while its redefinitions are applied; it must come back
+    return pint.UnitRegistry(LINES, non_int_type=Fraction, on_redefinition="raise")
 
 
 # ------------------------------------------------------------------------------------- model
@@ -195,6 +198,8 @@ def observe(ureg):
     out["active"] = len(ureg._active_ctx.contexts)
     out["newu"] = conv(1, "newu", "xm")
     out["compatible(xm)"] = tuple(sorted(next(iter(u._units)) for u in ureg.get_compatible_units("xm")))
+    s_, r_ = attempt(ureg.define, "baz = 2 * xs")  # the definition baz already has: refused under the registry's redefinition policy
+    out["redefinition_policy"] = "raise" if s_ == "err" and type(r_).__name__ == "RedefinitionError" else f"{s_}:{type(r_).__name__}"
     return out
 
 
@@ -216,6 +221,8 @@ def compare(obs, exp, base, where, skip=()):
         raise Violation(KNOWN_BASE, f"{where}: get_base_units(bar) = {obs['bar->xm:base']}, implied {exp['bar->xm']}")
     if exp["xm->xs"] not in (None, "?") and obs["foo->xs"] != exp["xm->xs"] * exp["foo->xm"]:
         raise Violation("state_differs_from_stack_model:rule_after_redefinition", f"{where}: foo->xs = {obs['foo->xs']}, implied {exp['xm->xs'] * exp['foo->xm']}")
+    if obs["redefinition_policy"] != "raise":
+        raise Violation("redefinition_policy_changed", f"{where}: define() of an existing name under on_redefinition='raise' -> {obs['redefinition_policy']}")
     if exp["active"] == 0:
         for k, v in base.items():
             if k == "newu" or k.startswith("compatible") or (k == "bar->xm:base" and KNOWN_BASE in skip):
@@ -296,6 +303,22 @@ def run_sequence(ops, col=None):
                 if after != before:
                     diff = {k: (before[k], after[k]) for k in before if before[k] != after[k]}
                     raise Violation(f"failed_activation_changed_state:{'with' if kind == 'failwith' else 'enable'}", f"{where}: activation of {op[1]} raised {type(r).__name__} but changed {diff}")
+            elif kind == "call":
+                before = observe(ureg)
+                q = ureg.Quantity(1, "xm")
+                s, r = attempt(q.to if op[1] == "to" else q.ito, op[2], "ca")
+                reachable = op[2] == "xs" or before["xm->xg"] is not None or (before["xs->xg"] is not None)
+                if not reachable and s == "ok":
+                    raise Violation("per_call_context_converted_without_rule", f"{where}: Q(1,xm).{op[1]}({op[2]!r}, 'ca') returned {r!r}")
+                if op[2] == "xs" and s == "err":
+                    raise Violation(f"per_call_context_refused:{exc_class(r)}", f"{where}: Q(1,xm).{op[1]}('xs', 'ca') raised {r!r}")
+                after = observe(ureg)
+                if model.defined == "?":
+                    before = {k: v for k, v in before.items() if k != "newu" and not k.startswith("compatible")}
+                    after = {k: v for k, v in after.items() if k in before}
+                if after != before:
+                    diff = {k: (before[k], after[k]) for k in before if before[k] != after[k]}
+                    raise Violation(f"per_call_context_left_residue:{op[1]}:{'ok' if s == 'ok' else 'failed'}", f"{where}: Q(1,xm).{op[1]}({op[2]!r}, 'ca') changed {diff}")
             elif kind == "define":
                 if not model.defined:
                     ureg.define("newu = 2 * xm")
